@@ -118,6 +118,16 @@ Theorem C09_refuted_relation_named_hnsw_nearest :
   forall E, known_class E w_hnsw = 5 /\ parse_rule E (show_rule E w_hnsw) = None.
 Proof. intros E. split; vm_compute; reflexivity. Qed.
 
+(* class 7:  edge(+inf, D) <- p()  holds Arithmetic(FloatConstant(inf)), prints edge(inf, D) <- p() *)
+Definition binf : N := 9218868437227405312.
+Definition w_leaf : rule := Rule (at_ "edge" [TArith (AFloat binf); v "D"]) [BPos (at_ "p" [])].
+Definition E3 : env :=   (* Rust: format!("{:?}", f64::INFINITY) = "inf", "inf".parse::<f64>() = inf *)
+  mkEnv (fun _ => 0) (fun s => if str_eqb s (lit "inf") then Some binf else None)
+        (fun _ => lit "inf") (fun _ => lit "inf").
+Theorem C09_refuted_bare_arithmetic_leaf :
+  dbg_ok E3 binf = true /\ known_class E3 w_leaf = 7 /\ parse_rule E3 (show_rule E3 w_leaf) = None.
+Proof. vm_compute. repeat split; reflexivity. Qed.
+
 (* class 6 (persistent path):  ans(X) <- b(X, true)  is stored as  ans(X) <- b(X, _) *)
 Definition w_ser : rule := Rule (at_ "ans" [v "X"]) [BPos (at_ "b" [v "X"; TBool true])].
 Theorem C09_refuted_persistent_form_is_lossy :
@@ -162,4 +172,5 @@ Print Assumptions C09_refuted_nan_constant.
 Print Assumptions C09_refuted_printed_arrow.
 Print Assumptions C09_refuted_duplicate_order_variable.
 Print Assumptions C09_refuted_relation_named_hnsw_nearest.
+Print Assumptions C09_refuted_bare_arithmetic_leaf.
 Print Assumptions C09_refuted_persistent_form_is_lossy.
